@@ -7,6 +7,7 @@ import (
 
 	"github.com/hknutzen/Netspoc-Approve/go/pkg/device"
 	"github.com/hknutzen/Netspoc-Approve/go/pkg/program"
+	"github.com/hknutzen/Netspoc-Approve/go/pkg/verifhook"
 	"github.com/spf13/pflag"
 )
 
@@ -64,6 +65,8 @@ func Main() int {
 			return abort("%v", err)
 		}
 		defer lockFH.Close()
+		verifhook.Gate("after-lock")
+		defer verifhook.Gate("before-exit")
 		return device.ApproveOrCompare(
 			*isCompare, fname, cfg, *logDir, *logFile, *quiet)
 	case 2:
